@@ -226,11 +226,13 @@ def hasSignature (c : Converter) (ms : List GenMethod) (s t : Ty) : Bool :=
   (extendIndex c).any (fun (_, s', t', _) => s' == s && t' == t) ||
   (lookupIndex ms).any (fun (_, s', t', _) => s' == s && t' == t)
 
+/-- the method table after every recorded caller of `callee` was flagged for a rebuild -/
+def markDirty (callers : List (Nat × Nat)) (callee : Nat) (ms : List GenMethod) : List GenMethod :=
+  callers.foldl (fun ms p => if p.1 == callee then ms.modify p.2 (fun m => { m with dirty := true }) else ms) ms
+
 /-- `generator.markCallersDirty` -/
-def markCallersDirty (callee : Nat) : M Unit := do
-  let st ← get
-  for (ce, cr) in st.callers do
-    if ce == callee then modifyMethod cr (fun m => { m with dirty := true })
+def markCallersDirty (callee : Nat) : M Unit :=
+  modify (fun st => { st with methods := markDirty st.callers callee st.methods })
 
 /-- `generator.addContext`: the context argument is added to a generated method and to the generated methods already
 built with a call of it (an explicit caller that lacks the context is only marked for a rebuild, which reports it).
